@@ -301,6 +301,9 @@ impl Axecutor {
     }
 
     fn register_brk(&mut self) -> Result<(), AxError> {
+        // The largest heap the brk handler provides (256 MiB, the same limit the ELF loader applies to a segment)
+        const MAX_HEAP_SIZE: u64 = 0x1000_0000;
+
         self.hook_before_mnemonic_native(SupportedMnemonic::Syscall, &|ax: &mut Axecutor, _| {
             if ax.reg_read_64(RAX)? != Syscall::Brk as u64 {
                 return Ok(HookResult::Unhandled);
@@ -346,6 +349,16 @@ impl Axecutor {
 
             // Otherwise, we resize the brk section to the new size
             let new_length = brk - ax.state.syscalls.brk_start;
+
+            // A request for more memory than we're willing to allocate is refused like on Linux (ENOMEM):
+            // the current break is returned unchanged, instead of aborting on a failing allocation
+            if new_length > MAX_HEAP_SIZE {
+                ax.reg_write_64(
+                    RAX,
+                    ax.state.syscalls.brk_start + ax.state.syscalls.brk_length,
+                )?;
+                return Ok(HookResult::Handled);
+            }
             ax.mem_resize_section(ax.state.syscalls.brk_start, new_length)?;
 
             ax.state.syscalls.brk_length = new_length;
